@@ -163,6 +163,10 @@ impl DBM {
                     VALUES (?1, ?2, ?3, ?4, ?5)",
                 params![tower_id.to_vec(), receipt.available_slots(), receipt.subscription_start(), receipt.subscription_expiry(), receipt.signature()]).map_err( Error::Unknown)?;
 
+        #[cfg(feature = "verif")]
+        teos_common::verif::crash_point("client::store_tower_record:before_commit");
+        #[cfg(feature = "verif")]
+        let _after = VerifAfterCommit("client::store_tower_record:after_commit");
         tx.commit().map_err(Error::Unknown)
     }
 
@@ -322,6 +326,10 @@ impl DBM {
             "UPDATE towers SET available_slots=?1 WHERE tower_id=?2",
             params![available_slots, tower_id.to_vec()],
         )?;
+        #[cfg(feature = "verif")]
+        teos_common::verif::crash_point("client::store_appointment_receipt:before_commit");
+        #[cfg(feature = "verif")]
+        let _after = VerifAfterCommit("client::store_appointment_receipt:after_commit");
         tx.commit()
     }
 
@@ -456,6 +464,10 @@ impl DBM {
             params![appointment.locator.to_vec(), tower_id.to_vec(),],
         )?;
 
+        #[cfg(feature = "verif")]
+        teos_common::verif::crash_point("client::store_pending_appointment:before_commit");
+        #[cfg(feature = "verif")]
+        let _after = VerifAfterCommit("client::store_pending_appointment:after_commit");
         tx.commit()
     }
 
@@ -502,6 +514,10 @@ impl DBM {
                 params![locator.to_vec(), tower_id.to_vec()],
             )?;
         };
+        #[cfg(feature = "verif")]
+        teos_common::verif::crash_point("client::delete_pending_appointment:before_commit");
+        #[cfg(feature = "verif")]
+        let _after = VerifAfterCommit("client::delete_pending_appointment:after_commit");
         tx.commit()
     }
 
@@ -525,6 +541,10 @@ impl DBM {
             params![appointment.locator.to_vec(), tower_id.to_vec(),],
         )?;
 
+        #[cfg(feature = "verif")]
+        teos_common::verif::crash_point("client::store_invalid_appointment:before_commit");
+        #[cfg(feature = "verif")]
+        let _after = VerifAfterCommit("client::store_invalid_appointment:after_commit");
         tx.commit()
     }
 
@@ -591,6 +611,10 @@ impl DBM {
             ],
         )?;
 
+        #[cfg(feature = "verif")]
+        teos_common::verif::crash_point("client::store_misbehaving_proof:before_commit");
+        #[cfg(feature = "verif")]
+        let _after = VerifAfterCommit("client::store_misbehaving_proof:after_commit");
         tx.commit()
     }
 
@@ -640,6 +664,17 @@ impl DBM {
             .prepare("SELECT tower_id FROM misbehaving_proofs WHERE tower_id = ?")
             .unwrap();
         misbehaving_stmt.exists([tower_id.to_vec()]).unwrap()
+    }
+}
+
+/// Fires a crash point once the enclosing commit has returned (feature `verif` only).
+#[cfg(feature = "verif")]
+struct VerifAfterCommit(&'static str);
+
+#[cfg(feature = "verif")]
+impl Drop for VerifAfterCommit {
+    fn drop(&mut self) {
+        teos_common::verif::crash_point(self.0);
     }
 }
 
